@@ -366,10 +366,10 @@ def _labels(case, v):
 
 
 LANES = [
-    Lane(name="proto", run_case=run_proto, strategy=case_st, budget={"quick": 32000, "thorough": 600000},
+    Lane(name="proto", cpu_limit=30.0, run_case=run_proto, strategy=case_st, budget={"quick": 32000, "thorough": 600000},
          shards={"quick": 16, "thorough": 64}, nontrivial=_nontrivial, labels=_labels,
          rule="GeminiClientProtocol / TitanClientProtocol on FakeTransport; reference parse; segmentation metamorphic"),
-    Lane(name="client", run_case=run_client, strategy=case_st, budget={"quick": 2400, "thorough": 50000},
+    Lane(name="client", cpu_limit=30.0, run_case=run_client, strategy=case_st, budget={"quick": 2400, "thorough": 50000},
          shards={"quick": 16, "thorough": 64}, nontrivial=_nontrivial, labels=_labels,
          rule="real GeminiClient.get/upload over in-memory TLS under virtual time; promptness and timeout bound"),
 ]
